@@ -151,6 +151,11 @@ def normalize(t):
                 return ('bytes2int', y[1], 'little' if x[2] == 'big' else 'big')
         if x[0] == 'slice' and x[4] == -1 and x[2] is None and x[3] is None:
             return ('rev', x[1])
+        if x[0] == 'index' and isinstance(x[2], int) and not isinstance(x[2], bool) and x[2] >= 0 and isinstance(x[1], tuple) and x[1] and \
+                x[1][0] == 'slice' and x[1][4] is None and (x[1][2] is None or (isinstance(x[1][2], int) and x[1][2] >= 0)) and \
+                (x[1][3] is None or (isinstance(x[1][3], int) and x[1][3] < 0)):
+            # x[a:-k][i] = x[a+i] (for an index inside the slice)
+            return ('index', x[1][1], (x[1][2] or 0) + x[2])
         if x[0] == 'slice' and x[2] == 0 and x[2] is not False:
             return ('slice', x[1], None, x[3], x[4])
         if x[0] == 'slice' and x[4] is None and isinstance(x[1], tuple) and x[1] and x[1][0] == 'slice' and x[1][4] is None:
